@@ -384,6 +384,30 @@ func (w *WalkEnv) install() {
 				in2 := w.split(tx.Name, 1<<uint(k), kindNames[k])
 				return cstBool(in2 == (op == token.EQL)), true
 			}
+			if isC && c.V != nil && c.V.Kind() == constant.Int {
+				// ordered comparison with a kind constant: reflect.Kind is an ordered enumeration, the
+				// comparison selects a contiguous range of kinds
+				k, _ := constant.Int64Val(c.V)
+				var mask uint32
+				for j := int64(0); j <= int64(reflect.UnsafePointer); j++ {
+					var in bool
+					switch op {
+					case token.LSS:
+						in = j < k
+					case token.LEQ:
+						in = j <= k
+					case token.GTR:
+						in = j > k
+					case token.GEQ:
+						in = j >= k
+					}
+					if in {
+						mask |= 1 << uint(j)
+					}
+				}
+				label := fmt.Sprintf("%s%s", op.String(), kindNames[clampKind(k)])
+				return cstBool(w.split(tx.Name, mask, label)), true
+			}
 			if ty2, ok := y.(Tok); ok && ty2.Dom == "kindof" && ty2.Name == tx.Name {
 				return cstBool(op == token.EQL || op == token.LEQ || op == token.GEQ), true
 			}
@@ -417,3 +441,14 @@ func (w *WalkEnv) install() {
 
 // KSnapshot returns the kind set currently associated with a key (for events).
 func (w *WalkEnv) KSnapshot(key string) uint32 { return w.get(key) }
+
+
+func clampKind(k int64) int {
+	if k < 0 {
+		return 0
+	}
+	if k > int64(reflect.UnsafePointer) {
+		return int(reflect.UnsafePointer)
+	}
+	return int(k)
+}
